@@ -119,11 +119,12 @@ CHECKS = {
         'pkgs': ['./zzverif/htx'],
         'harnesses': [
             {'fn': T + 'H_C13_1_Block2', 'over': {'max-decisions': 3000, 'max-paths': 100000}, 'must_reach': ['second-tx-has-logs-after-logs']},
+            {'fn': T + 'H_C13_1c_Sandwich', 'over': {'max-decisions': 5000, 'max-paths': 100000}},
             {'fn': T + 'H_C13_1b_Block3', 'over': {'max-decisions': 5000, 'max-paths': 400000}, 'thorough_only': True},
         ],
         'level_text': 'Bounded symbolic execution of a block of 2 (thorough: 3) Ethereum transactions of 8 outcome classes each (call with 0-2 logs, revert, VM error, failure outside EVM execution, creation ok / failed / self-destructing constructor, plain transfer) through the real EVM lane (ante bookkeeping, message server, ApplyMessageWithConfig receipt/bloom/transient code) and the real x/evm EndBlock; every gas-used figure is symbolic. z3 decides: transaction indices 0,1,2 in order, first-log index = logs emitted before, cumulative gas = running sum (gas limit for discarded executions), status 1 iff no VM error, created address reported iff creation succeeded and equal to CreateAddress(sender, nonce), receipt bloom = bloom of its own logs, one receipt per admitted transaction, EndBlock never panics.',
         'level_note': 'Bloom bit arithmetic is recomputed by a model using Keccak over concrete addresses/topics (native replay uses go-ethereum\'s); Cosmos transactions interleaved in the block are not modelled (they do not touch the x/evm transient store).',
-        'bounds': ['2 transactions (quick), 3 (thorough); 8 classes each; symbolic gas consumed by the contract; concrete prices/balances'],
+        'bounds': ['2 transactions of 8 classes each, and 3 transactions with log-emitting first and last and any class in between (quick); 3 transactions of 8 classes each (thorough); symbolic gas consumed by the contract; concrete prices/balances'],
         'outside': ['RLP bytes of receipts', 'more than 2 logs per transaction, more than 3 transactions'],
         'assumptions': TX_ASSUMPTIONS,
     },
@@ -246,10 +247,11 @@ CHECKS = {
             {'fn': T + 'H_C08_2b_NoCommit', 'over': {'max-decisions': 2000, 'max-paths': 100000}, 'must_reach': ['executed']},
             {'fn': T + 'H_C08_2c_TrialExecution', 'over': {'max-decisions': 2000, 'max-paths': 100000}, 'must_reach': ['trial-deliver', 'trial-mempool-accepted']},
             {'fn': T + 'H_C08_3_Prediction', 'over': {'max-decisions': 2000, 'max-paths': 100000}, 'must_reach': ['predicted']},
+            {'fn': T + 'H_C08_3b_CallPredictsDelivery', 'over': {'max-decisions': 2000, 'max-paths': 100000}, 'must_reach': ['predicted', 'predicted-with-refund', 'refused-by-both']},
             {'fn': T + 'H_C08_4_EstimateGas', 'over': {'max-decisions': 1500, 'max-paths': 20000}, 'must_reach': ['estimated', 'estimate-refused', 'estimate-above-gas-used']},
             {'fn': T + 'H_C08_4b_EstimateGasWide', 'thorough_only': True, 'over': {'max-decisions': 2500, 'max-paths': 100000}, 'must_reach': ['estimated', 'estimate-refused', 'estimate-above-gas-used']},
         ],
-        'level_text': 'Bounded symbolic execution of the no-commit paths of the real code: the context-based StateDB without CommitMultiStore (14 operations, snapshot/revert brackets), the real Keeper.EthCall, ApplyMessageWithConfig(commit=false) and the real mempool trial execution ELExecWithoutErrorDecorator (check / re-check / simulate / deliver), over a symbolic ledger and a symbolic contract behaviour incl. storage writes, value transfers, self-destruct and creation with code deposit: z3 decides on every path that every persistent store (for the trial execution: every store, incl. the rolled-back sender sequence and flags) and the event manager of the caller\'s context are unchanged; and, by self-composition, that commit=false and commit=true return the same gas used, VM error and return data.',
+        'level_text': 'Bounded symbolic execution of the no-commit paths of the real code: the context-based StateDB without CommitMultiStore (14 operations, snapshot/revert brackets), the real Keeper.EthCall, ApplyMessageWithConfig(commit=false) and the real mempool trial execution ELExecWithoutErrorDecorator (check / re-check / simulate / deliver), over a symbolic ledger and a symbolic contract behaviour incl. storage writes, value transfers, self-destruct and creation with code deposit: z3 decides on every path that every persistent store (for the trial execution: every store, incl. the rolled-back sender sequence and flags) and the event manager of the caller\'s context are unchanged; and, by self-composition, that commit=false and commit=true return the same gas used, VM error and return data, and that eth_call on a query context (no ante handler ran) reports the same gas used, VM error and return data as the same call delivered as the next transaction through the fee deduction of the ante handler (admissible transactions, sender able to pay fee and value), also when a storage refund is earned.',
         'level_note': 'EstimateGas: the real Keeper.EstimateGas (binary search over real state transitions) against a stub contract that needs a symbolic head-room on entry (monotone gas dependence), consumes a symbolic amount below it and earns a symbolic refund, estimation window 32 (quick) / 100 (thorough) gas units above the intrinsic gas; contracts whose success is not monotone in the gas supplied are outside. The trace endpoints are not encoded: tracer isolation is outside. ApplyMessageWithConfig writes per-tx bookkeeping into the transient store of the context it is given also with commit=false; queries rely on BaseApp handing them a throw-away branch (assumption).',
         'bounds': SDB_BOUNDS + TX_BOUNDS,
         'outside': ['eth_estimateGas over windows wider than 100 gas units or for contracts with non-monotone gas dependence', 'TraceTx / TraceBlock', 'gRPC plumbing, BaseApp query contexts'],
